@@ -4,6 +4,7 @@ import ast
 from ..core import (AnalysisError, short, unparse, iter_own, call_name, call_recv, kwarg,
                     is_self_attr, atomic_facts, parents, enclosing_stmt, enclosing_func)
 from . import totality, c02, c20
+from .. import symex
 
 WALKER = 'pylatexenc.latexwalker._walker'
 COLL = 'pylatexenc.latexnodes._nodescollector'
@@ -103,7 +104,7 @@ def run(ctx):
                construct='LatexGeneralNodesParser.parse: required stop condition')
     # met only if the configured condition fired: the value of the flag where it is tested, per
     # structural path with substituted values (E7)
-    from .. import symex
+    pass
     FLAG = 'met_a_required_stop_condition'
     try:
         uses = symex.Walker(is_sink=lambda n: n.id == FLAG and isinstance(n.ctx, ast.Load) and any(
@@ -167,6 +168,36 @@ def run(ctx):
                'implicit exceptions are covered only through the crash-construct rules G1-G9')
     ctx.assume('call resolution: class-hierarchy analysis for self/super, name-keyed fallback for other '
                'receivers (over-approximation inside the package)')
+    # ---- R05h: who may switch off the recognition of delimiters
+    ctx.rule('R05h', 'recognition of math delimiters, groups, macros or comments is switched off '
+                     '(sub_context(enable_<x>=False)) only by the parsers that read raw characters (verbatim '
+                     'text, character-list arguments): a state used to read ordinary content sees every '
+                     'delimiter, so an unmatched one is reported', 3)
+    RAW_READERS = {'LatexVerbatimBaseParser': 'verbatim text is outside the quantifier',
+                   'LatexCharsGroupParser': 'argument read as raw characters',
+                   'LatexCharsCommaSeparatedListParser': 'argument read as raw characters'}
+    SW = ('enable_math', 'enable_groups', 'enable_macros', 'enable_comments')
+    for mod_ in sorted(repo.modules.values(), key=lambda m_: m_.name):
+        if not (mod_.name.startswith('pylatexenc.latexnodes') or mod_.name.startswith('pylatexenc.macrospec')
+                or mod_.name.startswith('pylatexenc.latexwalker._walker')):
+            continue
+        for q_, f_ in sorted(mod_.functions.items()):
+            for c_ in iter_own(f_):
+                if not (isinstance(c_, ast.Call) and call_name(c_) in ('sub_context', 'ParsingState')):
+                    continue
+                off = [k.arg for k in c_.keywords if k.arg in SW and isinstance(k.value, ast.Constant)
+                       and not k.value.value]
+                if not off:
+                    continue
+                owner = q_.split('.')[0]
+                ctx.decide('R05h', owner in RAW_READERS, mod_, c_,
+                           '%s reads raw characters (%s)' % (owner, RAW_READERS.get(owner)),
+                           '%s switches off %s in the state it reads ordinary content with: an unmatched %s at that '
+                           'place is no longer a delimiter token, it is swallowed as a plain character or macro and '
+                           'the unbalanced document is accepted in strict mode'
+                           % (q_, ', '.join(off), 'math delimiter' if 'enable_math' in off else 'delimiter'),
+                           construct='%s: %s' % (q_, ', '.join(off)))
+
     return 'other', (
         'Exception-escape analysis (least fixpoint over the resolved call graph, strict '
         'configuration) of LatexWalker.parse_content over every parser class: each escaping '
@@ -181,12 +212,15 @@ def stray_closers(ctx, rule, repo):
     pot = co.methods('LatexNodesCollector').get('process_one_token')
     if pot is None:
         raise AnalysisError('anchor vanished: process_one_token')
+    pot = symex.inline_stmt_helpers(pot, co.methods('LatexNodesCollector'))
     closing = {"tok.tok == 'brace_close'": 'closing brace', "tok.tok == 'end_environment'": '\\end',
                'math': 'closing math delimiter'}
-    dispatch_line = min([i.lineno for i in iter_own(pot) if isinstance(i, ast.If)
-                         and unparse(i.test) == "tok.tok == 'comment'"] or [10 ** 9])
+    # order = position among the top-level statements (line numbers do not order statements that
+    # were followed into a helper)
+    dispatch_idx = min([k for k, st in enumerate(pot.body) for i in ast.walk(st) if isinstance(i, ast.If)
+                        and unparse(i.test) == "tok.tok == 'comment'"] or [10 ** 9])
     seen = set()
-    for i in [i for i in pot.body if isinstance(i, ast.If)]:
+    for idx_, i in [(k, i) for k, i in enumerate(pot.body) if isinstance(i, ast.If)]:
         t = unparse(i.test)
         key = None
         if t in closing:
@@ -211,7 +245,7 @@ def stray_closers(ctx, rule, repo):
             continue
         seen.add(key)
         ok = len(i.body) == 1 and isinstance(i.body[0], ast.Raise) and isinstance(i.body[0].exc, ast.Call) \
-            and call_name(i.body[0].exc) in PARSE_ERRORS and i.lineno < dispatch_line and \
+            and call_name(i.body[0].exc) in PARSE_ERRORS and idx_ < dispatch_idx and \
             kwarg(i.body[0].exc, 'recovery_past_token') is not None
         ctx.decide(rule, ok, co, i, 'stray %s raises a parse error before dispatch' % closing[key],
                    'a stray %s reaching the dispatcher does not unconditionally raise a parse error '
